@@ -51,6 +51,8 @@ pub const CSI: Sym = Sym::Lit("CSI", "\x1b[1m");
 pub const CSI2: Sym = Sym::Lit("CSI2", "\x1b[38;5;9m");
 pub const OSB: Sym = Sym::Lit("OSB", "\x1b]8;;u\x07");
 pub const OSS: Sym = Sym::Lit("OSS", "\x1b]8;;u\x1b\\");
+/// OSC hyperlink whose URL contains a hyphen between alphanumerics (realistic: "https://my-site.org")
+pub const OSH: Sym = Sym::Lit("OSH", "\x1b]8;;1-2\x1b\\");
 pub const ESC: Sym = Sym::Lit("ESC", "\x1b");
 pub const LBR: Sym = Sym::Lit("LBR", "[");
 pub const RBR: Sym = Sym::Lit("RBR", "]");
